@@ -7,6 +7,7 @@ import string
 import typing as T
 
 from sa import shapes
+from sa.boolfn import BF
 from sa.model import AnalysisError, call_arg, const_str, unparse, walk_no_nested
 
 TECHNIQUE = "taint analysis (values -> tokeniser) in VCSAPI.__call__, template tokenisation over the folded command tables, argument-wiring checks along the call chain"
@@ -214,6 +215,79 @@ def run(ctx) -> None:
         return pred
     shapes.check_passthrough(ctx, "R3", "cli.update", "cli._try_update",
                              {"new_version": "new_version", "commit_message": formatted("commit"), "tag_message": formatted("tag")})
+    # (c') which template: the command-line option whenever it was given (is not None) - expanded by the OLD/NEW shorthand -
+    #      and the configured template, verbatim, otherwise
+    from sa.pathcond import PathCond
+    ucfg = ctx.cfgs.get(upd.fq)
+    n_alt = 0
+    for which in ("commit", "tag"):
+        opt = f"{which}_message"
+        ctx.require(opt in upd.all_params, f"update lost its --{which}-message option")
+        a_none, a_true = f"{opt} is None", opt
+        upc = PathCond(ucfg, extra_atoms=[a_none, a_true], only=lambda t, _o=opt: t in (f"{_o} is None", _o), max_atoms=4)
+        N, Tr = BF.var(a_none), BF.var(a_true)
+        env = ~N | ~Tr                      # None is falsy
+        tu_calls = shapes.find_calls(prog, upd, "cli._try_update")
+        ctx.require(len(tu_calls) == 1, "update: expected one _try_update call")
+        arg = call_arg(tu_calls[0], prog.function("cli._try_update"), opt)
+        ctx.require(arg is not None, f"update: _try_update({opt}=...) not found")
+        facts: T.List[T.Tuple[ast.AST, BF, ast.AST]] = []
+
+        def expand(e: ast.AST, cond: BF, at: ast.AST, depth: int = 0) -> None:
+            e = shapes.inline_simple_calls(prog, upd, e, skip=(sub_name,))
+            if isinstance(e, ast.IfExp):
+                t = upc.expr_bf(e.test)
+                ctx.require(t is not None, f"update: condition `{unparse(e.test)}` selecting the {which} message template is not over the option")
+                expand(e.body, cond & t, at, depth)
+                expand(e.orelse, cond & ~t, at, depth)
+                return
+            if isinstance(e, ast.Call) and isinstance(e.func, ast.Attribute) and e.func.attr == "format" and any(kw.arg is None for kw in e.keywords):
+                expand(e.func.value, cond, at, depth)
+                return
+            if isinstance(e, ast.Name) and e.id not in upd.all_params and depth < 6:
+                found = False
+                for n in ucfg.nodes:
+                    if n.kind != "stmt" or n.id not in ucfg.reachable():
+                        continue
+                    st = n.ast
+                    tg, val = (st.targets[0], st.value) if isinstance(st, ast.Assign) and len(st.targets) == 1 else \
+                              ((st.target, st.value) if isinstance(st, ast.AnnAssign) and st.value is not None else (None, None))
+                    if isinstance(tg, ast.Name) and tg.id == e.id:
+                        found = True
+                        expand(val, upc.reach(n.id), st, depth + 1)
+                ctx.require(found, f"update: no assignment of `{e.id}` found")
+                return
+            facts.append((e, cond, at))
+        expand(arg, BF.true(), tu_calls[0])
+        n_alt += len(facts)
+        cfg_txt = f"cfg.{opt}"
+        for e, cond, at in facts:
+            txt = unparse(e)
+            has_cfg = cfg_txt in txt
+            has_cli = any(isinstance(x, ast.Name) and x.id == opt for x in ast.walk(e))
+            via_sub = [c for c in ast.walk(e) if isinstance(c, ast.Call) and unparse(c.func) == sub_name]
+            c_env = (cond & env).project([a_none, a_true])
+            if has_cfg and (via_sub or txt != cfg_txt):
+                ctx.bad("R3", f"cli.update: the configured {which} message template is not used verbatim",
+                        f"`{txt}`: the configured template passes through the OLD/NEW shorthand expander (documented for the command line only) or another edit; "
+                        f"the words OLD / NEW in a configured {opt} are rewritten", loc=upd.loc(at), witness={opt: "Bump OLD school -> {new_version}"},
+                        what=f"update: configured {which} template used verbatim")
+            elif has_cfg:
+                ctx.check("R3", c_env.equiv((N & env).project([a_none, a_true])), f"update: cfg.{opt} is used exactly when --{which}-message was not given (is None)",
+                          f"cli.update: the configured {which} message is used although a message was given on the command line",
+                          f"`{txt}` is chosen when {cond.to_dnf()}; required: exactly when `{opt} is None` (an empty --{which}-message '' is a given message)",
+                          loc=upd.loc(at), witness={f"--{which}-message": ""})
+            elif has_cli:
+                ok_shape = len(via_sub) == 1 and e is via_sub[0] and len(e.args) + len(e.keywords) == 1 and unparse((e.args + [k.value for k in e.keywords])[0]) == opt
+                ctx.check("R3", ok_shape, f"update: the command-line {which} message goes through {sub_name} only",
+                          f"cli.update: the command-line {which} message is edited on its way to the VCS", f"`{txt}`", loc=upd.loc(at))
+                ctx.check("R3", c_env.equiv((~N & env).project([a_none, a_true])), f"update: --{which}-message is used exactly when it was given (is not None)",
+                          f"cli.update: a given --{which}-message is not always used",
+                          f"`{txt}` is chosen when {cond.to_dnf()}; required: exactly when `{opt} is not None`", loc=upd.loc(at), witness={f"--{which}-message": ""})
+            else:
+                raise AnalysisError(f"C12/R3: {which} message template alternative not enumerated: `{txt[:80]}`")
+
+    ctx.floor("R3", "alternatives for the commit / tag message templates", n_alt, 2)
     # (d) documented placeholders are supplied, with the right values
     fmt_calls = [c for c in ast.walk(upd.node) if isinstance(c, ast.Call) and isinstance(c.func, ast.Attribute) and c.func.attr == "format"
                  and any(kw.arg is None for kw in c.keywords)]
